@@ -161,16 +161,19 @@ func race(script string, timeoutS int, all bool) (win solverAnswer, answers []so
 		started++
 		go func() { ch <- runSolver(ctx, solvers[i], script, timeoutS) }()
 	}
+	// staggered start: most obligations are decided by the first solver within a fraction of a second,
+	// and process start-up is what limits throughput on this machine
 	start(0)
-	start(1)
+	var second <-chan time.Time = time.After(400 * time.Millisecond)
 	var head <-chan time.Time = time.After(2500 * time.Millisecond)
 	if all {
+		start(1)
 		start(2)
 		start(3)
-		head = nil
+		second, head = nil, nil
 	}
 	got := 0
-	for got < started || head != nil {
+	for got < started || head != nil || second != nil {
 		select {
 		case a := <-ch:
 			got++
@@ -178,13 +181,25 @@ func race(script string, timeoutS int, all bool) (win solverAnswer, answers []so
 			if (a.status == "sat" || a.status == "unsat") && !all {
 				return a, answers
 			}
-			if head != nil && got == started {
-				head = nil
-				start(2)
-				start(3)
+			if got == started {
+				if second != nil {
+					second = nil
+					start(1)
+				} else if head != nil {
+					head = nil
+					start(2)
+					start(3)
+				}
 			}
+		case <-second:
+			second = nil
+			start(1)
 		case <-head:
 			head = nil
+			if second != nil {
+				second = nil
+				start(1)
+			}
 			start(2)
 			start(3)
 		}
@@ -319,7 +334,7 @@ func (g *Global) solveAll(vcs []*FnVC, timeoutS int, thorough bool) []*Result {
 		}
 	}
 	results := make([]*Result, len(jobs))
-	par := 10
+	par := 12
 	if thorough {
 		par = 5
 	}
